@@ -1198,19 +1198,28 @@ func (c *Ctx) assertNilMapEmpty(fr *Frame, mt *types.Map) {
 	c.assert("(= (select " + l + " null) 0)")
 }
 
-// map length facts for a particular map reference in the current state
-func (fr *Frame) mapLenFacts(mt *types.Map, m Term) {
-	c := fr.c
+// lenAxioms states, for the current (domain, length) pair of a map type, that
+// the length counter is the cardinality of the domain as far as emptiness is
+// concerned: len >= 0, a member implies len > 0, len > 0 implies a member.
+func (c *Ctx) lenAxioms(st *State, mt *types.Map) {
 	md, _, ml := mapComps(c, mt)
 	ks := c.sortOf(mt.Key())
-	d := c.comp(fr.st, md, "(Array Ref (Array "+ks+" Bool))")
-	l := c.comp(fr.st, ml, "(Array Ref Int)")
-	ln := sel(l, m)
-	c.assert(implies(fr.pc, "(>= "+ln+" 0)"))
-	c.assert(implies(fr.pc, "(=> (= "+ln+" 0) (forall ((k "+ks+")) (not (select (select "+d+" "+m+") k))))"))
-	c.assert(implies(fr.pc, "(forall ((k "+ks+")) (! (=> (select (select "+d+" "+m+") k) (> "+ln+" 0)) :pattern ((select (select "+d+" "+m+") k))))"))
-	c.assumed["len(map) is modelled by a counter kept consistent with the domain (len ≥ 0, len = 0 iff empty)"] = true
+	d := c.comp(st, md, "(Array Ref (Array "+ks+" Bool))")
+	l := c.comp(st, ml, "(Array Ref Int)")
+	key := "lenax:" + d + ":" + l
+	if c.declared[key] {
+		return
+	}
+	c.declared[key] = true
+	c.n++
+	wit := fmt.Sprintf("lenwit_%d", c.n)
+	c.emit(fmt.Sprintf("(declare-fun %s (Ref) %s)", wit, ks))
+	c.assert("(forall ((m Ref)) (! (and (>= (select " + l + " m) 0) (=> (> (select " + l + " m) 0) (select (select " + d + " m) (" + wit + " m)))) :pattern ((select " + l + " m))))")
+	c.assert("(forall ((m Ref) (k " + ks + ")) (! (=> (select (select " + d + " m) k) (> (select " + l + " m) 0)) :pattern ((select (select " + d + " m) k))))")
+	c.assumed["len(map) is modelled by a counter kept consistent with the domain (len >= 0; len > 0 iff some key is present)"] = true
 }
+
+func (fr *Frame) mapLenFacts(mt *types.Map, m Term) { fr.c.lenAxioms(fr.st, mt) }
 
 func (fr *Frame) mapStore(mt *types.Map, m, k, v Term) {
 	c := fr.c
